@@ -117,7 +117,11 @@ func (f Valuer) Value() (driver.Value, error) {
 
 	// At this point we have already handled `nil` above, so we can assume that all
 	// other values can be coerced into dereferenced types of bool/int/float/string.
-	if f.value.Kind() == reflect.Ptr {
+	// (A pointer to a pointer is followed to the end, as database/sql does.)
+	for f.value.Kind() == reflect.Ptr {
+		if f.value.IsNil() {
+			return nil, nil
+		}
 		f.value = f.value.Elem()
 	}
 
